@@ -230,7 +230,13 @@ func (fv *FV) structGet(v Term, t types.Type, idx int) Term {
 	st, _ := t.Underlying().(*types.Struct)
 	srt := fv.sortOf(t)
 	ft := st.Field(idx).Type()
-	r := app(fv.sortOf(ft), fmt.Sprintf("%s_f%d", srt, idx), v)
+	acc := fmt.Sprintf("%s_f%d", srt, idx)
+	if strings.HasPrefix(srt, "pv_X_") {
+		// a struct type from outside the repository: an uninterpreted sort with uninterpreted field
+		// accessors (reading a field is a function of the value; nothing else is known)
+		fv.decls.Add(1, acc, fmt.Sprintf("(declare-fun %s (%s) %s)", acc, srt, fv.sortOf(ft)))
+	}
+	r := app(fv.sortOf(ft), acc, v)
 	r.T = ft
 	return r
 }
@@ -238,6 +244,10 @@ func (fv *FV) structGet(v Term, t types.Type, idx int) Term {
 func (fv *FV) structSet(v Term, t types.Type, idx int, nv Term) Term {
 	st, _ := t.Underlying().(*types.Struct)
 	srt := fv.sortOf(t)
+	if strings.HasPrefix(srt, "pv_X_") {
+		fv.outsidef("assignment to a field of the external struct type %s", typeShort(t))
+		return v
+	}
 	var args []Term
 	for i := 0; i < st.NumFields(); i++ {
 		if i == idx {
